@@ -510,10 +510,15 @@ pub fn small_loop(rng: &mut Rng, v: &mut Vec<Cmd>) {
 /// The bare counted loop (n rounds) appended to `v`; leaves [0] on stack 3 and a pending jump source.
 pub fn small_loop_core(rng: &mut Rng, v: &mut Vec<Cmd>, n: usize) {
     let heart = rng.range(2, 12) as u8;
+    small_loop_with(rng, v, n, heart, 1);
+}
+
+/// Counted loop with an explicit label: heart and step (the label's count; the counter goes down by `step`).
+pub fn small_loop_with(rng: &mut Rng, v: &mut Vec<Cmd>, n: usize, heart: u8, step: usize) {
     let junk = rng.usize(4, 8);
     let ch = rng.usize(33, 126);
-    v.push(Cmd::new(0, n, 1, RArea::Nil));
-    v.push(Cmd::new(0, 1, 1, RArea::Leaf(heart)));
+    v.push(Cmd::new(0, n, step, RArea::Nil));
+    v.push(Cmd::new(0, 1, step, RArea::Leaf(heart)));
     v.push(Cmd::new(3, 1, junk, RArea::Nil));
     v.push(Cmd::new(1, 2, 3, RArea::Nil));
     v.push(Cmd::new(0, 1, ch, RArea::Nil));
@@ -522,7 +527,7 @@ pub fn small_loop_core(rng: &mut Rng, v: &mut Vec<Cmd>, n: usize) {
     v.push(Cmd::new(
         0,
         1,
-        1,
+        step,
         RArea::Node(0, Box::new(RArea::Nil), Box::new(RArea::Node(0, Box::new(RArea::Nil), Box::new(RArea::Leaf(heart))))),
     ));
 }
@@ -856,4 +861,164 @@ pub const MAGIC: [&str; 24] = [
 
 pub fn magic(rng: &mut Rng) -> &'static str {
     MAGIC[rng.below(MAGIC.len() as u64) as usize]
+}
+
+/// The program itself writes a dictionary string (CR LF pairs, escape sequences, the tools' own markers and
+/// vocabulary) to stdout or stderr, character by character.
+pub fn magic_output(rng: &mut Rng, v: &mut Vec<Cmd>) {
+    let m = magic(rng);
+    let stream = if rng.chance(80) { 1 } else { 2 };
+    let pos = rng.usize(0, v.len());
+    let mut ins: Vec<Cmd> = vec![Cmd::new(5, 1, 3, RArea::Nil)];
+    if rng.chance(50) {
+        push_value(&mut ins, rng.usize(65, 90));
+        ins.push(Cmd::new(1, 1, stream, RArea::Nil));
+    }
+    for c in m.chars() {
+        push_value(&mut ins, c as usize);
+        ins.push(Cmd::new(1, 1, stream, RArea::Nil));
+    }
+    if rng.chance(50) {
+        push_value(&mut ins, rng.usize(65, 90));
+        ins.push(Cmd::new(1, 1, stream, RArea::Nil));
+    }
+    for (i, c) in ins.into_iter().enumerate() {
+        v.insert((pos + i).min(v.len()), c);
+    }
+}
+
+/// Many completed loops of fewer passes than the per-command jump budget each (aggregate effects).
+pub fn many_loops(rng: &mut Rng) -> Vec<Cmd> {
+    let mut v = Vec::new();
+    for _ in 0..rng.usize(2, 4) {
+        push_value(&mut v, rng.usize(2, 60));
+    }
+    let loops = rng.usize(8, 15);
+    for k in 0..loops {
+        let rounds = rng.usize(60, 99);
+        // every loop leaves its spent counter (0) on the stack: a closer that runs once too often pops one more;
+        // labels are distinct per loop (heart x step), otherwise a later loop would jump into an earlier one
+        let heart = 2 + (k % 11) as u8;
+        let step = 1 + k / 11;
+        small_loop_with(rng, &mut v, rounds, heart, step);
+        if rng.chance(40) {
+            push_value(&mut v, rng.usize(2, 60));
+        }
+    }
+    // dump what the stack holds (more pops than values: the surplus shows as NaN text)
+    for _ in 0..loops + 8 {
+        v.push(Cmd::new(3, 1, 1, RArea::Nil));
+        v.push(Cmd::new(1, 1, rng.usize(4, 8), RArea::Nil));
+    }
+    v
+}
+
+/// A long straight-line program (thousands of commands), all of it pre-executable.
+pub fn long_program(rng: &mut Rng) -> Vec<Cmd> {
+    let n = rng.usize(2100, 2700);
+    let mut v = Vec::with_capacity(n);
+    let mut depth = 0usize;
+    for i in 0..n {
+        if depth > 0 && rng.chance(45) {
+            // consume: print one in a hundred, otherwise add up
+            if i % 97 == 0 {
+                v.push(Cmd::new(1, 1, 1, RArea::Nil));
+                depth -= 1;
+            } else if depth >= 2 {
+                v.push(Cmd::new(1, 2, 3, RArea::Nil));
+                depth -= 1;
+            } else {
+                v.push(Cmd::new(0, 1, rng.usize(48, 57), RArea::Nil));
+                depth += 1;
+            }
+        } else {
+            v.push(Cmd::new(0, 1, rng.usize(0, 9), RArea::Nil));
+            depth += 1;
+        }
+    }
+    // show the total as text and a marker character
+    v.push(Cmd::new(3, 1, 1, RArea::Nil));
+    v.push(Cmd::new(0, 1, 90, RArea::Nil));
+    v.push(Cmd::new(1, 1, 1, RArea::Nil));
+    v
+}
+
+const HALF: [usize; 14] = [0, 0, 1, 2, 255, 256, 4096, 32767, 32768, 32769, 65534, 65535, 1000, 46341];
+
+/// Push one 32-bit limb `hi * 2^16 + lo` (hi, lo from a set of carry/borrow-relevant halves) onto stack 3.
+fn push_limb(rng: &mut Rng, v: &mut Vec<Cmd>) {
+    let hi = *rng.pick(&HALF);
+    let lo = *rng.pick(&HALF);
+    push_value(v, hi);
+    push_value(v, 65536);
+    v.push(Cmd::new(2, 2, 3, RArea::Nil));
+    push_value(v, lo);
+    v.push(Cmd::new(1, 2, 3, RArea::Nil));
+}
+
+/// Push a multi-limb integer built limb by limb: (((l_k) * 2^32 + l_{k-1}) * 2^32 + ...).
+fn push_limbs(rng: &mut Rng, v: &mut Vec<Cmd>, limbs: usize) {
+    push_limb(rng, v);
+    for _ in 1..limbs {
+        push_value(v, 65536);
+        push_value(v, 65536);
+        v.push(Cmd::new(2, 2, 3, RArea::Nil));
+        v.push(Cmd::new(2, 2, 3, RArea::Nil));
+        push_limb(rng, v);
+        v.push(Cmd::new(1, 2, 3, RArea::Nil));
+    }
+}
+
+/// Limb grid: two multi-limb integers whose 32-bit words come from {0, 1, 2^31, 2^32-1, ...} are multiplied,
+/// added with opposite signs, divided and compared, in both operand orders (carry / borrow / zero-word paths
+/// of the big-integer code).  Everything stays on stack 3; the lock-step comparison sees every result.
+pub fn limb_grid(rng: &mut Rng) -> Vec<Cmd> {
+    let mut v = Vec::new();
+    let la = rng.usize(1, 4);
+    let lb = rng.usize(1, 4);
+    push_limbs(rng, &mut v, la);
+    push_limbs(rng, &mut v, lb);
+    for _ in 0..rng.usize(1, 3) {
+        match rng.below(6) {
+            0 => {
+                // product (top is the left operand)
+                v.push(Cmd::new(5, 2, 4, RArea::Nil));
+                v.push(Cmd::new(5, 1, 3, RArea::Nil));
+                v.push(Cmd::new(2, 2, 3, RArea::Nil));
+            }
+            1 => {
+                // a - b: negate the top, add
+                v.push(Cmd::new(3, 1, 9, RArea::Nil));
+                v.push(Cmd::new(1, 2, 3, RArea::Nil));
+            }
+            2 => {
+                // b - a: negate the one below the top (negate both, negate the top again), add
+                v.push(Cmd::new(3, 2, 9, RArea::Nil));
+                v.push(Cmd::new(3, 1, 9, RArea::Nil));
+                v.push(Cmd::new(1, 2, 3, RArea::Nil));
+            }
+            3 => {
+                // quotient a / b as a fraction: reciprocal of the top, multiply
+                v.push(Cmd::new(4, 1, 9, RArea::Nil));
+                v.push(Cmd::new(2, 2, 3, RArea::Nil));
+            }
+            4 => {
+                // sum
+                v.push(Cmd::new(1, 2, 3, RArea::Nil));
+            }
+            _ => {
+                // square the top
+                v.push(Cmd::new(5, 1, 3, RArea::Nil));
+                v.push(Cmd::new(2, 2, 3, RArea::Nil));
+            }
+        }
+        if rng.chance(50) {
+            let l = rng.usize(1, 3);
+            push_limbs(rng, &mut v, l);
+        }
+    }
+    // the result as text on stdout (through a negated copy: negative values print as the text of their negation)
+    v.push(Cmd::new(5, 1, 3, RArea::Nil));
+    v.push(Cmd::new(3, 1, 1, RArea::Nil));
+    v
 }
